@@ -40,6 +40,10 @@ DECLS = {
 }
 
 
+NESTED_SORT = {'arithmetic': 'Real', 'bv': '(_ BitVec 8)',
+               'fp': '(_ FloatingPoint 5 11)', 'strings': 'String'}
+
+
 def registry():
     from ddsmt import mutators
     muts, groups, optmap = [], [], {}
@@ -113,7 +117,10 @@ def main():
     rep.assumptions += [
         'argparse prefix abbreviations are not exercised',
         'a theory is declared through declare-const / nullary declare-fun / '
-        'define-fun / define-sort of one of its sorts (result position)',
+        'define-fun / define-sort of one of its sorts, or inside a compound '
+        'sort of the declared symbol (array index / element); argument sorts '
+        'of declared functions are not used: whether they "declare something '
+        'of the theory" is not fixed by the property',
     ]
     res = common.run_tlc('MC_Options', 'MC_Options.cfg', timeout=900)
     if res.violated:
@@ -132,7 +139,25 @@ def main():
 
     def input_for(profile, k):
         lines = ['(set-logic ALL)', '(declare-const plain Bool)']
-        for g in profile:
+        nest = [g for g in profile if g in NESTED_SORT]
+        rest = [g for g in profile if g not in NESTED_SORT]
+        if k % 3 == 2 and nest:
+            # theories declared only inside compound sorts, two theories per
+            # declaration where possible (array index / element)
+            while len(nest) >= 2:
+                g1, g2 = nest.pop(), nest.pop()
+                if k % 2:
+                    lines.append(f'(declare-const a{len(lines)} (Array '
+                                 f'{NESTED_SORT[g1]} {NESTED_SORT[g2]}))')
+                else:
+                    lines.append(f'(declare-fun h{len(lines)} () (Array '
+                                 f'{NESTED_SORT[g2]} {NESTED_SORT[g1]}))')
+            for g in nest:
+                lines.append(f'(declare-const a{len(lines)} (Array Bool '
+                             f'{NESTED_SORT[g]}))')
+        else:
+            rest = list(profile)
+        for g in rest:
             ds = DECLS[g]
             lines.append(ds[k % len(ds)])
         lines.append('(assert plain)')
